@@ -129,9 +129,20 @@ def run(ctx):
     if len(cfg_keys) < 10:
         raise Broken("the harness no longer lists the configuration-update keys", out2[-500:])
     hists += ["cfg:%s:%s" % (k, v) for k in cfg_keys for v in cfg_vals]
+    # the same directed histories on chains whose consensus parameters LIMIT the gas of a block (Tendermint's
+    # default, and the repository's genesis tool, is "no limit"): transactions that use the block's gas up
+    gas_hists = ["%s@gas=%d" % (h, g) for h in ("govupdate", "ethlock", "bidflow") for g in ((50000, 200000) if ctx.tier != "thorough" else (1, 20000, 50000, 100000, 200000, 1000000))]
+    hists += gas_hists
     with c18run.cf.ThreadPoolExecutor(max_workers=12) as ex:
         hres = list(ex.map(lambda nm: (nm, c18run.run_history(vh, nm)), hists))
-    hbad = [(nm, r) for nm, r in hres if r is not None]
+    hbad = []
+    for nm, r in hres:
+        if r is None:
+            continue
+        if "@gas=" in nm and ctx.known_finding("C18.finite_block_gas_stops_hooks", ""):
+            continue
+        hbad.append((nm, r))
+    ctx.coverage["histories_stopped_known"] = [nm for nm, r in hres if r is not None and "@gas=" in nm]
     for nm, (blk, what) in hbad[:3]:
         n += 1
         ctx.violation("history_%s_block_%d" % (nm.replace(":", "_"), blk), {
